@@ -27,7 +27,13 @@ class RadarSession:
         # every fourth radar session runs with logging switched on (RUST_LOG=trace): the arguments of
         # the log lines of client and library are code too, and an operator may switch them on
         RadarSession.counter = getattr(RadarSession, "counter", 0) + 1
-        env = {"RUST_LOG": "trace"} if RadarSession.counter % 4 == 0 else None
+        env = {"RUST_LOG": "trace"} if RadarSession.counter % 4 == 0 else {}
+        # the time stamps of the Stats tab are local time: sessions run in zones with whole-hour,
+        # half-hour, seconds-precision (local mean time) and extreme offsets, and with a malformed TZ
+        tz = [None, "UTC0", "CET-1CEST", "LMT-0:19:32", "IST-5:30", "XXX+12:34:56", "NZDT-13:45", ":/nonexistent/zone", "AAA+24"][RadarSession.counter % 9]
+        if tz is not None:
+            env["TZ"] = tz
+        env = env or None
         self.p = procs.PtyProc(argv, rows=rows, cols=cols, env=env, cwd=self.scratch)
         self.events = []
 
